@@ -97,6 +97,10 @@ def special_docs(rng, index):
   d7["ranim_styles"] = [[], [["Opacity", index["Opacity"][2], 12, 16]]]
   d7["reg"] = [0, 2, 0, 0, 0]
   docs.append(d7)
+  d8 = json.loads(json.dumps(d4))                                 # ONE region without background + an initial background:
+  d8["ranim_styles"] = [[]]                                        # the cache works on the source itself, not on a clone
+  d8["initials"] = [["BackgroundColor", bgtok]]
+  docs.append(d8)
   for d in docs:
     for key, n in (("styles", d["n"]), ("anim_styles", d["n"]), ("rstyles", d["nr"]), ("ranim_styles", d["nr"])):
       d.setdefault(key, [[] for _ in range(n)])
@@ -180,7 +184,7 @@ def run(ctx):
   meta = {}
   for di, ad in enumerate(docs):
     # two query times: one inside the busiest part of the timeline, one late
-    times = [5, 13] if di < 7 else [ctx.rng.randrange(0, 12 * (ad["D"] // 2)), ctx.rng.randrange(0, 24 * (ad["D"] // 2))]
+    times = [5, 13] if di < 8 else [ctx.rng.randrange(0, 12 * (ad["D"] // 2)), ctx.rng.randrange(0, 24 * (ad["D"] // 2))]
     for h in hists:
       rid += 1
       jobs.append((ad, h, times, rid))
@@ -219,7 +223,7 @@ def run(ctx):
       di, h, times = meta[rid_]
       r = byid[rid_]
       ad = docs[di]
-      f = {"op": r["ops"][k - 1], "doc_index": di, "special_doc": di < 7,
+      f = {"op": r["ops"][k - 1], "doc_index": di, "special_doc": di < 8,
            "bg_by_animation": any(s and s[0][0] == "BackgroundColor" for s in (ad.get("ranim_styles") or [])),
            "bg_by_initial": any(p == "BackgroundColor" for p, _t in ad.get("initials", []))}
       ctx.violation(clause, {"doc": ad, "history": list(h), "times": times, "step": k, "results": r["res"]}, f,
@@ -254,6 +258,11 @@ def run(ctx):
   for rid_, tick, clause in fails:
     ad = origin[rid_]
     r = byid2[rid_]
+    if clause.startswith("c14_source_changed"):
+      f = c01.doc_features(ad)
+      f["single_region"] = ad["nr"] == 1
+      ctx.violation(clause, {"doc": ad}, f, f"doc#{rid_}")
+      continue
     j = r["times"].index(tick)
     f = c01.doc_features(ad)
     unc = [x for x in r["obs"][j] if x["paints"]]
